@@ -25,7 +25,7 @@ def execAll : List TOp → TextSt → Except Err TextSt
 
 /-- every node of a block list that abstracts an `Inv` state was created by an applied operation,
     except the head -/
-theorem node_applied {d : TState} {s : TextSt} (wf : WF s) (hd : abs s = d.cells) (hinv : Inv d)
+theorem node_applied {d : TState} {s : TextSt} (wf : WFg s) (hd : abs s = d.cells) (hinv : Inv d)
     {n : TNode} (hn : n ∈ s) : n.id = headId ∨ d.applied n.id.1 = true := by
   by_cases hh : n.id = headId
   · exact Or.inl hh
@@ -44,7 +44,7 @@ theorem head_not_after {ts : Ticket} (h : 0 < ts.lamport) : headId.1.after ts = 
   · rw [Ticket.after_iff] at e; simp only [headId] at e; omega
 
 /-- what `Pre` gives about the nodes of the block list -/
-theorem pre_facts {d : TState} {o : TOp} {s : TextSt} (wf : WF s) (hd : abs s = d.cells) (hp : Pre d o) :
+theorem pre_facts {d : TState} {o : TOp} {s : TextSt} (wf : WFg s) (hd : abs s = d.cells) (hp : Pre d o) :
     AnchorIn (abs s) o.fr ∧ AnchorIn (abs s) o.to ∧ Fresh s o.ts ∧
       (∀ n ∈ s, n.id.1.after o.ts = true → sees o.vv n.id.1 = false) := by
   obtain ⟨hinv, hfr, hto, hfresh, _, _, hmono, _, hpos, hN, _⟩ := hp
@@ -66,10 +66,11 @@ theorem pre_facts {d : TState} {o : TOp} {s : TextSt} (wf : WF s) (hd : abs s = 
         | false => rfl
         | true => rw [hN n.id.1 hs ha] at hnewer; cases hnewer
 
-/-- **refinement of one step**: an enabled operation executes successfully on the block list, keeps
+/-- refinement of one step over the GC-tolerant invariant `WFg` (used by C01 through `WF.toG` and by
+    C03 on purged lists): an enabled operation executes successfully on the block list, keeps
     the invariant, and `abs` commutes with it -/
-theorem exec_refines {d : TState} {o : TOp} {s : TextSt} (wf : WF s) (hd : abs s = d.cells)
-    (hp : Pre d o) : ∃ s', exec o s = .ok s' ∧ WF s' ∧ abs s' = (tapply d o).cells := by
+theorem exec_refines_g {d : TState} {o : TOp} {s : TextSt} (wf : WFg s) (hd : abs s = d.cells)
+    (hp : Pre d o) : ∃ s', exec o s = .ok s' ∧ WFg s' ∧ abs s' = (tapply d o).cells := by
   obtain ⟨hfr, hto, hfresh, hnew⟩ := pre_facts wf hd hp
   obtain ⟨_, _, hold, hfix, hsty⟩ := hp.2.2.2.2.2.2.2.2
   unfold exec
@@ -94,6 +95,35 @@ theorem exec_refines {d : TState} {o : TOp} {s : TextSt} (wf : WF s) (hd : abs s
     refine ⟨s', h1, h2, ?_⟩
     rw [h3, hd]
     simp only [tapply, AOp.run, AOp.M, TOp.aop, TOp.puts, hb, Mof, insAfter_nil]
+
+/-- **refinement of a run**: a valid operation sequence replays on the block list without error -/
+theorem execAll_refines_g {L : List TOp} {d : TState} {s : TextSt} (wf : WFg s) (hd : abs s = d.cells)
+    (hv : textSem.Valid d L) :
+    ∃ s', execAll L s = .ok s' ∧ WFg s' ∧ abs s' = (L.foldl tapply d).cells := by
+  induction L generalizing d s with
+  | nil => exact ⟨s, rfl, wf, hd⟩
+  | cons o L ih =>
+    obtain ⟨hp, hv'⟩ := hv
+    obtain ⟨s1, h1, wf1, hd1⟩ := exec_refines_g wf hd hp
+    obtain ⟨s', h2, wf', hd'⟩ := ih wf1 hd1 hv'
+    refine ⟨s', ?_, wf', hd'⟩
+    simp only [execAll, h1]
+    exact h2
+
+/-- the full invariant `WF` (no purge so far) is kept as well -/
+theorem wf_exec {s s' : TextSt} (wf : WF s) {o : TOp} (hfresh : Fresh s o.ts)
+    (hfix : ∀ content attrs, o.body = .edit content attrs → Fixed content) (h : exec o s = .ok s') : WF s' := by
+  unfold exec at h
+  cases hb : o.body with
+  | edit content attrs => rw [hb] at h; exact wf_edit wf hfresh (hfix content attrs hb) h
+  | style attrs keys => rw [hb] at h; exact wf_styleOp wf h
+
+/-- **refinement of one step**: an enabled operation executes successfully on the block list, keeps
+    the invariant, and `abs` commutes with it -/
+theorem exec_refines {d : TState} {o : TOp} {s : TextSt} (wf : WF s) (hd : abs s = d.cells)
+    (hp : Pre d o) : ∃ s', exec o s = .ok s' ∧ WF s' ∧ abs s' = (tapply d o).cells := by
+  obtain ⟨s', h1, _, h3⟩ := exec_refines_g wf.toG hd hp
+  exact ⟨s', h1, wf_exec wf (pre_facts wf.toG hd hp).2.2.1 hp.2.2.2.2.2.2.2.2.2.2.2.1 h1, h3⟩
 
 /-- **refinement of a run**: a valid operation sequence replays on the block list without error -/
 theorem execAll_refines {L : List TOp} {d : TState} {s : TextSt} (wf : WF s) (hd : abs s = d.cells)
@@ -215,7 +245,7 @@ def toStringC (tc : Ticket) (l : Cells) : String :=
     (fun b => stringOfUnits b.2.2))
 
 /-- under the invariant the non-empty nodes are exactly the nodes after the head -/
-theorem filter_nonempty_eq_drop {s : TextSt} (wf : WF s) :
+theorem filter_nonempty_eq_drop {s : TextSt} (wf : WFg s) :
     s.filter (fun n => !n.units.isEmpty) = s.drop 1 := by
   obtain ⟨hd, r, hs, hid, hu⟩ := wf.head
   rw [hs, List.filter_cons]
@@ -235,7 +265,7 @@ theorem filter_nonempty_eq_drop {s : TextSt} (wf : WF s) :
   | cons _ _ => rfl
 
 /-- **`Text.String()` is a function of the abstract state** -/
-theorem toString_eq {s : TextSt} (wf : WF s) (tc : Ticket) : Text.toString tc s = toStringC tc (abs s) := by
+theorem toString_eq {s : TextSt} (wf : WFg s) (tc : Ticket) : Text.toString tc s = toStringC tc (abs s) := by
   unfold Text.toString toStringC shown
   rw [obsBlocks_abs, filter_nonempty_eq_drop wf, List.filter_map, List.map_map]
   congr 1
